@@ -90,6 +90,7 @@ type ChoicePoint struct {
 	Options []string // "T<id>:<name>:<op desc>" or "timer:<d>"
 	Chosen  int
 	Step    int
+	Worthy  bool // false: preempting here is equivalent to preempting at the thread's next shared operation
 }
 
 type PanicObs struct {
@@ -371,7 +372,7 @@ func (s *Sched) pick(cur *Thread) *Thread {
 		}
 		s.lowStreak = 0
 		choice := 0
-		isChoice := nopt >= 2 && s.choiceWorthy(cur, opts)
+		isChoice := nopt >= 2 // every decision is recorded (stable numbering); the explorer branches only at worthy ones
 		if isChoice {
 			idx := len(s.Points)
 			if idx < len(s.Prefix) {
@@ -381,7 +382,7 @@ func (s *Sched) pick(cur *Thread) *Thread {
 					return nil
 				}
 			}
-			cp := ChoicePoint{Chosen: choice, Step: s.Steps}
+			cp := ChoicePoint{Chosen: choice, Step: s.Steps, Worthy: s.choiceWorthy(cur, opts)}
 			for _, t := range opts {
 				d := "start"
 				if t.op != nil {
@@ -768,7 +769,7 @@ func EnvChoice(name string, n int) int {
 			s.abortFrom(s.cur)
 		}
 	}
-	cp := ChoicePoint{Chosen: choice, Step: s.Steps}
+	cp := ChoicePoint{Chosen: choice, Step: s.Steps, Worthy: true}
 	for i := 0; i < n; i++ {
 		cp.Options = append(cp.Options, fmt.Sprintf("env:%s=%d", name, i))
 	}
